@@ -29,7 +29,7 @@ type c12Driver struct{}
 func init() { drivers["c12"] = c12Driver{} }
 
 var c12Names = []string{"a.go", "b.go", "gen/a.go", "a_1.go", "a_2.go", "b_1.go", "k", "k_1", "x.txt", "gen/a_1.go"}
-var c12Points = []string{"p", "q", "imports", "$.x", "A_1", ""}
+var c12Points = []string{"p", "q", "imports", "$.x", "A_1", "", "my-hook", "kitex:handler"}
 
 func marker(p string) string { return "@@thriftgo_insertion_point(" + p + ")" }
 
